@@ -652,6 +652,8 @@ def profiles(tier, seed, light=False):
     P.append(dict(base, counting=True, amts=[1, 2], cellmax=1000, totmax=1000, maxn=2, maxdepth=3, M=8, K=2, H=0, ntables=1, strategy="sha256"))
     if light and tier == "quick":  # cross-cutting properties ride on a reduced set of instances
         P = [dict(p, ntables=min(p["ntables"], 3)) for p in P if not p.get("patch_limits")]
+    if light and tier == "thorough":    # ... and in the thorough tier on a third of the hash tables (the engine-specific properties take them all)
+        P = [dict(p, ntables=max(2, p["ntables"] // 3)) if p["ntables"] else p for p in P if not p.get("patch_limits") and not p.get("exhaustive")]
     for i, p in enumerate(P):
         if p.get("strategy"):
             p["tables"] = [strategy_table(p["strategy"], p["keys"], p["K"], p["M"])]
